@@ -319,6 +319,7 @@ type rtspCase struct {
 	Cred   string `json:"cred"`
 	Pass   string `json:"pass"`
 	Query  string `json:"query"` // appended to the request URL ("" = none)
+	Sep    string `json:"sep,omitempty"`  // Digest: what separates the header's parameters ("" = comma and one space)
 	User   string `json:"user,omitempty"` // the configured user name ("" = user1)
 }
 
@@ -441,6 +442,9 @@ func runRtspAuth(r *vk.Run, c rtspCase) {
 		} else {
 			hdr = basic(user, c.Pass+"y")
 		}
+	}
+	if c.Sep != "" && strings.HasPrefix(hdr, "Digest ") {
+		hdr = "Digest " + strings.ReplaceAll(strings.TrimPrefix(hdr, "Digest "), ", ", c.Sep) // (RFC 7235: a comma with optional white space on either side)
 	}
 	st, sdp, _, _ = describe(hdr)
 	r.Class(fmt.Sprintf("rtsp-auth/m%d/%s/sdp=%v/pass-colon=%v", c.Method, c.Cred, sdp, strings.Contains(c.Pass, ":")))
@@ -687,6 +691,13 @@ func main() {
 			}
 			for _, cr := range []string{"right", "wrong-password"} {
 				rcs = append(rcs, rtspCase{Method: m, Cred: cr, Pass: "p4ss", User: string([]byte{b}) + "ser"})
+			}
+		}
+		if m == 1 {
+			for _, sep := range []string{",", ",\t", ",  ", " , ", " ,"} {
+				for _, cr := range []string{"right", "wrong-password", "digest-wrong-uri-in-response"} {
+					rcs = append(rcs, rtspCase{Method: 1, Cred: cr, Pass: "p4ss", Sep: sep})
+				}
 			}
 		}
 		for _, u := range []string{"Basic", "Digest", "a", "B", "admin", "root", "service", "caiss", " lead"} {
